@@ -513,7 +513,8 @@ static void run(const Case &c, Ctx &ctx) {
     res = aws_small_block_allocator_bytes_reserved(w.sba);
     PBT_CHECK(res <= 5 * PAGE && res == w.pages.size() * PAGE, "everything released: bytes_reserved %zu, %zu pages alive", res, w.pages.size());
     std::map<size_t, int> per;
-    for (auto &kv : w.pages) per[kv.second.cls]++;
+    for (auto &kv : w.pages)
+            if (kv.second.cls) per[kv.second.cls]++; // a page no block was ever seen in has no known class: it only counts towards the total
     for (auto &kv : per) PBT_CHECK(kv.second <= 1, "everything released but class %zu keeps %d pages", kv.first, kv.second);
     PBT_CHECK(galloc::live_blocks() == parent_baseline, "everything released but %zu parent blocks are outstanding (baseline %zu)",
               galloc::live_blocks(), parent_baseline);
